@@ -899,7 +899,8 @@ class PythonPrimitiveToStoneDecoder:
             return None
         else:
             if validate:
-                if self.caller_permissions.permissions:
+                if (self.caller_permissions.permissions and
+                        hasattr(data_type, 'validate_with_permissions')):
                     data_type.validate_with_permissions(val, self.caller_permissions)
                 else:
                     data_type.validate(val)
